@@ -102,11 +102,11 @@ def run(ctx):
             oo = prim.origin_of_operand(nf, t.args[1])
             opts = {}
             l = t.args[1].place.local if t.args[1].place is not None else None
-            for bb, o in prim.defs_origins(nf, l) if l is not None else []:
+            for bb, o in prim.alternatives(nf, l) if l is not None else []:
                 txt = " ".join(str(c.get("text", "")) for c in o.consts())
                 flag = None
                 for gd in prim.dominating_guards(nf, bb):
-                    pr = gd["pred"].strip()
+                    pr = prim.expand_single_def_vars(nf, gd["pred"]).strip()
                     if pr.k == "arg" and pr.a["name"] == "ignore_case":
                         flag = gd["bool"]
                 for nm in ("REGEX_OPTION_IGNORECASE", "REGEX_OPTION_NONE"):
